@@ -40,6 +40,12 @@ pub fn small_mode() -> bool {
     *SMALL.get_or_init(|| std::env::var("VERIF_SCALE_DIV").ok().and_then(|s| s.parse::<u64>().ok()).map_or(false, |d| d > 1))
 }
 
+/// set by ./check for the Miri pass: code that Miri cannot interpret (encoding_rs probes CPU
+/// features with inline assembly) is kept out of the interpreted workload
+pub fn miri_mode() -> bool {
+    std::env::var("VERIF_MIRI").map_or(false, |v| v == "1")
+}
+
 pub type CaseFn = fn(&mut Ctx, &mut Rng, u64);
 
 pub struct Gen {
